@@ -163,7 +163,52 @@ def reqWriteHandle (script impl : List String) : Option Result := do
     | _ => none
   | _ => none
 
+/-- `reqmp`: the multipart upload round trip.  The model's opinion is the round-trip law itself: both decoders
+(net/http, hertz's own server-side reader) must return exactly the fields and the file contents the application
+attached (file content = concatenation of the pieces its reader handed out), sorted by name.  The multipart
+encoding itself is `mime/multipart`'s and is not modelled. -/
+def takePairs : Nat → List String → Option (List (String × String) × List String)
+  | 0, r => some ([], r)
+  | n + 1, k :: v :: r => (takePairs n r).map (fun (l, r') => ((k, v) :: l, r'))
+  | _, _ => none
+
+def takeTriples : Nat → List String → Option (List (String × String × String) × List String)
+  | 0, r => some ([], r)
+  | n + 1, a :: b :: c :: r => (takeTriples n r).map (fun (l, r') => ((a, b, c) :: l, r'))
+  | _, _ => none
+
+def joinPieces (p : String) : String :=
+  if p == "-" then "-" else
+    let j := String.join (p.splitOn ",")
+    if j.isEmpty then "-" else j
+
+def insertSorted (x : String × String) : List (String × String) → List (String × String)
+  | [] => [x]
+  | y :: t => if x.1 < y.1 || (x.1 == y.1 && x.2 ≤ y.2) then x :: y :: t else y :: insertSorted x t
+
+def reqMpExpected (args : List String) : Option (List String × Nat) :=
+  match args with
+  | nf :: r =>
+    match takePairs nf.toNat! r with
+    | some (fields, nfl :: r2) =>
+      match takeTriples nfl.toNat! r2 with
+      | some (files, []) =>
+        let fs := fields.foldr insertSorted []
+        let dec : List String := ["ok", toString fs.length] ++ fs.flatMap (fun kv => [kv.1, kv.2]) ++
+          [toString files.length] ++ files.flatMap (fun t => [t.1, t.2.1, joinPieces t.2.2])
+        some (["0", "N"] ++ dec ++ ["H"] ++ dec, (files.map (fun t => (joinPieces t.2.2).length / 2)).foldl Nat.max 0)
+      | _ => none
+    | _ => none
+  | _ => none
+
 def handle : Handler
+  | "reqmp" :: args, impl =>
+    match reqMpExpected args with
+    | some (exp, mx) =>
+      some { out := exp, spec := impl == exp,
+             specNote := "net/http and hertz's own reader decode the multipart upload to the attached fields and file contents",
+             tag := "reqmp:" ++ sizeClass mx }
+    | none => none
   | ["respread", flags, maxBody, endK, stream, _cuts], impl => do
     let s ← hx stream
     let e := if endK == "stall" then End.stall else End.eof
